@@ -430,7 +430,7 @@ func runC07(c *Ctx) {
 		}
 	}
 	// ---- C07.N: nil messages crossing the shim's channels
-	c.Rule("C07.N", "a possibly-nil message sent on a shim channel is nil-checked by the receiving goroutine before it is dereferenced", 2)
+	c.Rule("C07.N", "a possibly-nil message sent on a shim channel is nil-checked by the receiving goroutine before it is dereferenced; receives from a channel that gets closed test ok", 4)
 	ruleShimNilMessages(c, p, "C07.N")
 	ruleDecodedPointersChecked(c, p, "C07.N", "agent/websockets", "agent/utils", "agent")
 
